@@ -1,23 +1,24 @@
 #!/bin/bash
 # confirm a seeded change in its scratch worktree: tests pass with it, demo fails with it and passes without it
-# usage: confirm_mutant.sh <worktree>
+# usage: confirm_mutant.sh <worktree> [A|B]   (suffix: patchA.diff + demoA/ ...)
 set -u
 WT=$1
+SFX=${2:-}
 cd "$WT" || exit 2
-[ -s patch.diff ] || { echo "no patch.diff"; exit 2; }
+[ -s patch$SFX.diff ] || { echo "no patch$SFX.diff"; exit 2; }
 git checkout -q -- Compiler VM 2>/dev/null
 git status --short -- Compiler VM | head -3
-git apply --check patch.diff || { echo "patch does not apply to HEAD"; exit 2; }
+git apply --check patch$SFX.diff || { echo "patch does not apply to HEAD"; exit 2; }
 # without the change
 cmake -G Ninja -S . -B _build >/dev/null && cmake --build _build >/dev/null || { echo "clean build failed"; exit 2; }
-bash demo/build.sh >/dev/null 2>&1 || { echo "demo build failed (clean)"; exit 2; }
-./demo/demo >/dev/null 2>&1; CLEAN=$?
-git apply patch.diff
+bash demo$SFX/build.sh >/dev/null 2>&1 || { echo "demo build failed (clean)"; exit 2; }
+./demo$SFX/demo >/dev/null 2>&1; CLEAN=$?
+git apply patch$SFX.diff
 cmake --build _build >/dev/null || { echo "build with change failed"; git checkout -q -- Compiler VM; exit 2; }
 T=$(ctest --test-dir _build -j8 2>&1 | grep -c "Passed")
 TF=$(ctest --test-dir _build -j8 2>&1 | grep "tests passed")
-bash demo/build.sh >/dev/null 2>&1
-./demo/demo >/tmp/demo.out 2>&1; MUT=$?
+bash demo$SFX/build.sh >/dev/null 2>&1
+./demo$SFX/demo >/tmp/demo.out 2>&1; MUT=$?
 echo "demo clean=$CLEAN mutated=$MUT ; ctest with change: $TF"
 tail -3 /tmp/demo.out
 git checkout -q -- Compiler VM
